@@ -306,9 +306,23 @@ example : IsUnitary (bs GQ.I .H a345.c a345.s (a51213.cis GQ.I) 1 (a345.cis GQ.I
 /-- `wrap_spec` / `wrapFixed_in_bounds`: a far-out value at ℚ. -/
 example : wrap (K := ℚ) true (some 0) (some 4) (-1001 / 2) = some (7 / 2) := by decide +kernel
 
+/-- `wrapFixed_in_bounds` with a rounding that is not the identity: under IEEE double rounding the
+repaired code stores the bound itself where the pinned code raises (`wrapCurrent_fails_on_current_code`),
+and `wrap_nonperiodic`: both branches (kept as given / raises) occur. -/
+example : wrapFixed fl64 true (some 0) (some twoPi64) (fl64 (-98 * twoPi64)) = some twoPi64 ∧
+    checkValue (K := ℚ) id true false (some 0) (some 1) (1 / 2) = some (1 / 2) ∧
+    checkValue (K := ℚ) id true false (some 0) (some 1) 2 = none ∧
+    checkValue (K := ℚ) id true false none (some 1) 2 = none := by
+  decide +kernel
+
 /-- `perm_vector_roundtrip`, `perm_sends_listed`: the documentation's example. -/
 example : permOk [2, 3, 1, 0] = true ∧ permOk [2, 3, 1, 1] = false ∧ permOk [1, 2, 3] = false := by
   decide +kernel
+
+/-- `permMat_isUnitary`: the hypothesis holds for every accepted list (here the documentation's example),
+and the permutation is not the identity. -/
+example : Function.Injective (permFun [2, 3, 1, 0]) ∧ (permFun [2, 3, 1, 0] ⟨0, by decide⟩).val = 2 :=
+  ⟨permFun_injective (by decide +kernel), by decide +kernel⟩
 
 /-- `expr_live`: a history with a rejected call (out of non-periodic bounds) and a wrapped one. -/
 def exStore : Store := fun x =>
@@ -317,6 +331,12 @@ def exStore : Store := fun x =>
 
 example : slotValue (.add (.mul (.var "a") (.const 2)) (.var "b"))
     (exStore.run [("a", 9), ("b", 7), ("a", -1), ("b", 1 / 4)]) = some (25 / 4) := by
+  decide +kernel
+
+/-- `expr_depends_on_vars`: two different stores that agree on the variables of the expression. -/
+example : slotValue (.mul (.var "b") (.const 2)) exStore =
+    slotValue (.mul (.var "b") (.const 2)) (exStore.run [("a", 9)]) ∧
+    exStore.env "a" ≠ (exStore.run [("a", 9)]).env "a" := by
   decide +kernel
 
 end PM.C14
